@@ -176,9 +176,14 @@ def ev(rel, e, S, static_type):
             out |= rel.fields.get(e['name'], {}).get(x, set())
         return out, out
     if t == 'collect':
+        # a.b = union over every asset y reached by a of y.b: the right-hand side is relative to ONE asset
+        # (this matters for intersection, difference and variables inside it)
         lo, up = ev(rel, e['lhs'], S, static_type)
-        lo2, _ = ev(rel, e['rhs'], lo, None)
-        _, up2 = ev(rel, e['rhs'], up, None)
+        lo2, up2 = set(), set()
+        for y in lo:
+            lo2 |= ev(rel, e['rhs'], {y}, None)[0]
+        for y in up:
+            up2 |= ev(rel, e['rhs'], {y}, None)[1]
         return lo2, up2
     if t in ('union', 'intersection', 'difference'):
         llo, lup = ev(rel, e['lhs'], S, static_type)
@@ -266,7 +271,7 @@ def L_INH(cs=None):
     ])
     A = asset('Am', sup='P', steps=s_decl(1) + [
         step('dA', 'defense', reaches=[astep('tA')], ttc=DISABLED),
-        step('viaVar', 'or', reaches=[to(fld('os'), 'back')], overrides=False),
+        step('viaVar', 'or', reaches=[to(var('vv'), 'back')], overrides=False),     # '+>' extension that itself uses a variable
         step('timed', 'and', reaches=[astep('tA')], ttc=EXPO, tags=['x', 'y']),
     ])
     G1 = asset('G1', sup='Am', steps=s_decl(2) + [
@@ -281,6 +286,8 @@ def L_INH(cs=None):
         step('timed', 'and', reaches=[astep('tG2')], ttc=ENABLED, tags=[]),
         step('gex', 'exist', requires=[fld('os2')], reaches=[astep('tG2')]),
     ])
+    G3 = asset('G3', sup='G1', steps=[])        # a type without any step of its own
+    Q = asset('Q', steps=[step('tQ', 'or')], category='C2')
     O = asset('O', steps=[step('tO', 'or'), step('back', 'or', reaches=[to(fld('ps'), 'tP')]),
                           step('exO', 'exist', requires=[sub('G1', fld('ps'))]),
                           # subtype filters whose matching instances are children and grandchildren of the filter type
@@ -293,11 +300,16 @@ def L_INH(cs=None):
               assoc('L2', 'Am', 'as2', (1, None), 'O', 'os2', (0, 2)),
               assoc('Dup', 'G1', 'dg1', MANY, 'O', 'do1', MANY),
               assoc('Dup', 'G2', 'dg2', MANY, 'O', 'do2', MANY),
-              assoc('Chain', 'O', 'prv', MANY, 'O', 'nxt', MANY)]
-    return spec([P, A, G1, G2, O], assocs, lang_id='verif.linh')
+              assoc('Chain', 'O', 'prv', MANY, 'O', 'nxt', MANY),
+              # same name AND same field names between different pairs of types
+              assoc('Same', 'G1', 'sh', MANY, 'O', 'sk', MANY),
+              assoc('Same', 'G2', 'sh', MANY, 'Q', 'sk', MANY),
+              # a class name that sorts after the key 'extras'
+              assoc('zlink', 'Am', 'za', MANY, 'O', 'zo', MANY)]
+    return spec([P, A, G1, G2, O, G3, Q], assocs, lang_id='verif.linh')
 
 
-INH_SUP = {'P': None, 'Am': 'P', 'G1': 'Am', 'G2': 'Am', 'O': None}
+INH_SUP = {'P': None, 'Am': 'P', 'G1': 'Am', 'G2': 'Am', 'O': None, 'G3': 'G1', 'Q': None}
 
 
 def ref_fold(spec_dict, tname):
